@@ -7,6 +7,7 @@ import (
 	"errors"
 	"fmt"
 	"io"
+	"sync"
 )
 
 // Sink is an io.Writer that records everything and can fail at its k-th call.
@@ -212,17 +213,36 @@ type ReadResult struct {
 
 const sentinel = 0xEE
 
+var bufPools sync.Map // size -> *sync.Pool
+
+func getBuf(n int) []byte {
+	p, _ := bufPools.LoadOrStore(n, &sync.Pool{})
+	if b, ok := p.(*sync.Pool).Get().([]byte); ok {
+		return b
+	}
+	return make([]byte, n)
+}
+
+func putBuf(b []byte) {
+	p, _ := bufPools.LoadOrStore(len(b), &sync.Pool{})
+	p.(*sync.Pool).Put(b) //nolint
+}
+
 // Drain reads r to its first error with the given policy. Only p[:n] of each
 // call counts as handed out; buffers are pre-filled with a sentinel.
 func Drain(r io.Reader, pol ReadPolicy, max int) ReadResult {
 	var res ReadResult
 	zero := 0
-	var buf []byte
+	maxSz := 0
+	for _, s := range pol.Sizes {
+		if s > maxSz {
+			maxSz = s
+		}
+	}
+	buf := getBuf(maxSz)
+	defer putBuf(buf)
 	for {
 		sz := pol.Size(res.Calls)
-		if cap(buf) < sz {
-			buf = make([]byte, sz)
-		}
 		p := buf[:sz]
 		lim := sz
 		if lim > 4096 {
